@@ -1,0 +1,27 @@
+//go:build verif
+
+package settings
+
+// Machine-checked contracts (comment-only; compiled only with -tags verif).
+
+// A pattern part is the wildcard iff it is the one-character string "*".
+//@ pure isstar(s) = len(s) == 1 && s[0] == '*'
+// Specificity of a pattern among those matching one name: an exact realm outranks an exact
+// swamp part; for a fixed name the four possible matching patterns get four different scores,
+// so "the most specific match" is unique and independent of map iteration order.
+//@ pure specificity(p) = ite(isstar(icall("GetRealmName", p)), 0, 2) + ite(isstar(icall("GetSwampName", p)), 0, 1)
+//@ pure matches(n, st) = icall("ComparePattern", n, icall("GetPattern", st))
+
+// P (property C21): the settings returned for a swamp are those of the most specific registered
+// pattern that matches its name -- for every iteration order of the pattern map -- and the
+// built-in default only when no registered pattern matches.
+//@ func (*settings).GetBySwampName(s, swampName) (r)
+//@   property C21
+//@   requires[name] swampName != nil
+//@   requires[registered] forall k in keys(s.patterns): s.patterns[k] != nil && icall("GetPattern", s.patterns[k]) != nil
+//@   modifies *
+//@   loop 0 invariant[best_so_far] (best == nil ==> bestScore == -1) && (best != nil ==> matches(swampName, best) && bestScore == specificity(icall("GetPattern", best)) && icall("GetPattern", best) != nil)
+//@   loop 0 invariant[max_of_visited] forall k in keys(s.patterns): visited(k) && matches(swampName, s.patterns[k]) ==> best != nil && specificity(icall("GetPattern", s.patterns[k])) <= bestScore
+//@   loop 0 invariant[map_untouched] mapsame(s.patterns)
+//@   csensures[most_specific_match_wins] forall k in keys(s.patterns): matches(swampName, s.patterns[k]) ==> matches(swampName, r) && specificity(icall("GetPattern", s.patterns[k])) <= specificity(icall("GetPattern", r))
+//@   csensures[default_only_without_match] calls("New") > old(calls("New")) ==> forall k in keys(s.patterns): !matches(swampName, s.patterns[k])
